@@ -420,11 +420,12 @@ impl super::DebugSession {
 
     pub(super) fn handle_continue(&mut self, req: &DapRequest) -> anyhow::Result<()> {
         // `continue` is answered before the debuggee runs, so a request that cannot be
-        // honoured (no process yet, or it has exited) must be refused before that answer
-        match self.debugger.as_ref().map(|dbg| dbg.thread_state()) {
-            None => return self.send_err(req, "continue: debugger not initialized"),
-            Some(Err(e)) => return self.send_err(req, format!("continue: {e}")),
-            Some(Ok(_)) => {}
+        // honoured (no debugger, or the debuggee has exited) must be refused before that answer
+        if self.debugger.is_none() {
+            return self.send_err(req, "continue: debugger not initialized");
+        }
+        if self.terminated {
+            return self.send_err(req, "continue: debuggee has exited");
         }
 
         self.begin_running();
